@@ -140,6 +140,14 @@ class Checker:
         except AnalysisError as e:
             self.error(str(e))
             return None
+        except Exception as e:       # a defect of the machinery: undecided (exit 2), never a verdict; the other rules still run
+            import os
+            import traceback
+            if os.environ.get("HVSA_TRACE"):
+                traceback.print_exc(file=sys.stdout)
+            tb = traceback.extract_tb(e.__traceback__)[-1]
+            self.error(f"internal error {type(e).__name__}: {e} ({tb.filename.split('/')[-1]}:{tb.lineno})")
+            return None
 
     def count(self, rule: str) -> int:
         return sum(1 for i in self.instances if i.rule == rule)
